@@ -208,6 +208,30 @@ pub fn main(args: &[String]) -> i32 {
                 }
             }
         }
+        if job.get("hist").is_some() {
+            // purity (C18), decided on the real code alone: every call of the history against the same call on a
+            // freshly compiled Regex
+            if let (Some(a), Some(b), Some(h)) = (reply["res"].as_array(), reply["fresh"].as_array(), job["hist"].as_array()) {
+                for (i, (ra, rb)) in a.iter().zip(b.iter()).enumerate() {
+                    if rb.is_null() || ra["k"] == "panic" {
+                        continue;
+                    }
+                    let strip = |v: &Value| {
+                        let mut v = v.clone();
+                        if let Some(o) = v.as_object_mut() {
+                            o.remove("cut");
+                        }
+                        v
+                    };
+                    if strip(ra) != strip(rb) {
+                        recs.push(json!({"ev":"fault","kind":"impure","call":format!("{}#{}", h[i]["op"].as_str().unwrap_or(""), i),
+                                         "pat_s":job["pat_s"],"flags":job["flags_s"],"x":job["x"],
+                                         "s_s":crate::cps_to_string(&h[i]["s"]).unwrap_or_default(),
+                                         "expected":rb,"observed":ra}));
+                    }
+                }
+            }
+        }
         if job.get("unopt2").is_some() {
             // optimised vs unoptimised: every call must return exactly the same
             let strip = |v: &Value| {
